@@ -48,7 +48,8 @@ Definition wrap_ptr_offsets (w : wkind) : list Z :=
 Fixpoint ptr_offsets (t : gtype) {struct t} : list Z :=
   match t with
   | TString | TSlice _ | TMap _ _ | TPtr _ | TChan | TFunc | TUnsafePtr => [0]   (* data pointer first *)
-  | TIface => [0; 8]                                                            (* type word, data word *)
+  | TIface => [8]      (* the data word only: the type / itab word points to memory that is
+                          never collected and the runtime's bitmap leaves it unmarked *)
   | TArray n e =>
       (fix rep (k : nat) (off : Z) {struct k} : list Z :=
          match k with
